@@ -3,6 +3,7 @@ package main
 import (
 	"fmt"
 	"os"
+	"strings"
 
 	"verif/engine/runner"
 )
@@ -18,6 +19,37 @@ func probeMain(files []string) {
 		}
 		res := runner.Run(string(b), runner.Opts{})
 		fmt.Printf("== %s kind=%s class=%s msg=%s line=%d %s\n%s\n", f, res.Kind, res.Class, res.Msg, res.Line, res.PanicKey, res.Out)
+	}
+	runner.Cleanup()
+}
+
+// showMain prints and judges one matrix case. Usage: vcheck C06 show <shape> <route[>route]> <mut@target[,mut@target]>
+func showMain(a []string) {
+	if len(a) < 3 {
+		fmt.Println("usage: show shape routes steps")
+		return
+	}
+	k := kase{Shape: a[0], Routes: strings.Split(a[1], ">")}
+	for _, s := range strings.Split(a[2], ",") {
+		var st step
+		p := strings.Split(s, "@")
+		st.Mut = p[0]
+		fmt.Sscan(p[1], &st.Target)
+		k.Steps = append(k.Steps, st)
+	}
+	b := k.build()
+	fmt.Println(b.script)
+	if !b.ok {
+		fmt.Println("not applicable")
+		return
+	}
+	res := runner.Run(b.script, runner.Opts{})
+	fmt.Printf("kind=%s msg=%s %s\n%s\n", res.Kind, res.Msg, res.PanicKey, res.Out)
+	o := judge(k)
+	fmt.Printf("evaluable=%v reason=%s leaks=%+v outer=%v effective=%v\n", o.Evaluable, o.Reason, o.Leaks, o.OuterLeak, o.Effective)
+	jc := &judgeCache{m: map[string]outcome{}}
+	for _, f := range findings(k, o, jc) {
+		fmt.Println("KEY", f.Key)
 	}
 	runner.Cleanup()
 }
